@@ -91,7 +91,7 @@ func VF_C02_b_ex() {
 	vf.Reach("C02.b.ex")
 	l01, p01 := vfLessNoPanic(vl, 0, 1)
 	l10, p10 := vfLessNoPanic(vl, 1, 0)
-	vf.AssertKnown(!vf.Or(p01, p10), "C02.b.ex.nopanic", "F13-votelist-less-slice-panic", short)
+	vf.AssertKnown(!vf.Or(p01, p10), "C02.b.ex.nopanic", "F3b-votelist-less-slice-panic", short)
 	if p01 || p10 {
 		return
 	}
